@@ -183,6 +183,14 @@ def atoms(t, acc=None):
     return acc
 
 
+def atoms_top(t):
+    """atoms occurring as factors of the monomials of t (not their sub-terms)"""
+    out = set()
+    for m, _ in _as_poly(t).items():
+        out.update(m)
+    return out
+
+
 def subst(t, mapping):
     """replace atoms/terms according to mapping (term -> term), re-normalising"""
     if t in mapping:
